@@ -1,6 +1,7 @@
 package main
 
 import (
+	"strings"
 	"ti/builtin"
 	"ti/cmd"
 	"ti/context"
@@ -10,16 +11,25 @@ import (
 	"ti/verifapi"
 )
 
-func verifRounds(src, file string) {
-	flags := cmd.NewExecuteFlags()
+// verifRunProgram runs the four rounds exactly as main does (minus the goroutine, the
+// watchdog and preload), on the given source text, with the given flags and target row.
+func verifRunProgram(src, file string, flags *cmd.ExecuteFlags, targetRow int) {
 	for _, round := range context.GetRounds() {
 		lr := reader.VerifNew([]rune(src))
 		p := parser.New(lexer.New(lr), file)
+		if targetRow > 0 {
+			p.LspTargetRow = targetRow
+		}
 		cleanSimpleIdentifires()
 		evaluationLoop(p, flags, round, false)
 	}
 }
 
+func verifRounds(src, file string) {
+	verifRunProgram(src, file, cmd.NewExecuteFlags(), 0)
+}
+
+// VerifRunSrc: concrete program, used for translator validation against the native binary.
 func VerifRunSrc(n int) {
 	verifRounds(verifapi.Source(), verifapi.FileName())
 }
@@ -29,20 +39,105 @@ func VerifRunSym(n int) {
 	verifRounds(verifapi.Source(), verifapi.FileName())
 }
 
-func VerifTokens(k int) {
-	n := verifapi.Int("len", 0, k)
-	var toks []lexer.VerifTok
-	for i := 0; i < n; i++ {
-		toks = append(toks, lexer.VerifSymTok())
-	}
-	lexer.VerifToks = toks
-	verifapi.StubLexer()
-	flags := cmd.NewExecuteFlags()
-	for _, round := range context.GetRounds() {
-		lexer.VerifPos = 0
-		p := parser.New(lexer.New(reader.VerifNew(nil)), "a.rb")
-		cleanSimpleIdentifires()
-		evaluationLoop(p, flags, round, false)
-	}
-	verifapi.Reach("done")
+// ---- F2: short fragment sequences (C01, C02, C04) ----
+
+// One representative per token category the lexer / parser.Read / Eval distinguish, every
+// keyword that has a DynamicEvaluator, every operator the lexer emits, and the method names
+// that have dedicated strategies.
+var verifFrags = []string{
+	// reduced alphabet (first verifCoreN entries)
+	"x", "1", "\"s\"", "\n", "=", ".", ",", "(", ")", "[", "]", "{", "}", "|", "def", "end", "class", "if", "do", "Foo",
+	"+", "?", ":", "each", "foo:", "@a", "<", "nil", "self", "in", "case", "when", "*s", "&b", "return", "new",
+	// the rest
+	"module", "unless", "elsif", "else", "while", "until", "for", "begin", "rescue", "private", "protected", "public",
+	"yield", "then", "break", "and", "or", "not", "==", "!=", "=>", ">", "<=", "<<", "-", "*", "/", "%", "**", "&", "&&", "||",
+	"!", "::", "..", "...", "&.", "->", "+=", "||=", "<=>", "#{", "=begin", "^", ";", "y", "$g", "FOO", ":sym", "**k", "A::B", "<<EOS",
+	"dbtp", "p", "attr_reader", "attr_accessor", "include", "extend", "raise", "push", "replace", "merge", "nil?", "is_a?",
+	"true", "false", "Integer", "String", "Array", "1.5", "first", "%w", "'q'", "`", "Hash", "puts", "class <<", "super", "lambda", "[]",
 }
+
+const verifCoreN = 36
+
+var verifContexts = []string{
+	"",
+	"a = [1]\n",
+	"a = [1]\na.",
+	"h = {k: 1}\nh.",
+	"s = \"t\"\ns.",
+	"x = 1\nx ",
+	"class A\n",
+	"class A\ndef f(v)\n",
+	"def f(v, w = 1)\n",
+	"[1].each do |v|\n",
+	"case 1\n",
+	"x = true ? 1 : \"s\"\nx.",
+	"def f(v)\nend\nf",
+	"if x\n",
+	"h = {k: 1}\nh[",
+}
+
+// verifFragText builds a program: a context prefix followed by <= k fragments joined by
+// "" or " " (both matter: `a [` vs `a[`). Everything is concretised: one path per text.
+func verifFragText(k, alphabet, ctxHi int) string {
+	ctx := verifapi.Concrete(verifapi.Int("ctx", 0, ctxHi))
+	text := verifContexts[ctx]
+	n := verifapi.Concrete(verifapi.Int("len", 0, k))
+	for i := 0; i < n; i++ {
+		f := verifapi.Concrete(verifapi.Int("frag", 0, alphabet-1))
+		if i > 0 {
+			if verifapi.Concrete(verifapi.Int("sep", 0, 1)) == 1 {
+				text += " "
+			}
+		}
+		text += verifFrags[f]
+	}
+	if verifapi.Concrete(verifapi.Int("nl", 0, 1)) == 1 {
+		text += "\n"
+	}
+	return text
+}
+
+func verifDiagLineOK(line, file string) bool {
+	return strings.HasPrefix(line, file+":::") || strings.HasPrefix(line, "@"+file+":::")
+}
+
+// verifStdoutOK: every printed line is a diagnostic or -i hint of the target file.
+func verifStdoutOK(out, file string) bool {
+	if out == "" {
+		return true
+	}
+	for _, line := range strings.Split(strings.TrimSuffix(out, "\n"), "\n") {
+		if !verifDiagLineOK(line, file) {
+			return false
+		}
+	}
+	return true
+}
+
+func verifRunFrags(text string) {
+	flags := cmd.NewExecuteFlags()
+	flags.IsDefineInfo = verifapi.Bool("dash_i")
+	verifapi.Witness("src", text)
+	if flags.IsDefineInfo {
+		verifapi.Witness("flags", "-i")
+	} else {
+		verifapi.Witness("flags", "")
+	}
+	verifapi.CatchExit(func() { verifRunProgram(text, "./a.rb", flags, 0) })
+	out := verifapi.TakeStdout()
+	verifapi.Reach("ran")
+	verifapi.Classify("output/line-is-neither-diagnostic-nor-hint")
+	verifapi.Assert(verifStdoutOK(out, "./a.rb"), "C01-output-lines")
+}
+
+// VerifFragTop: k fragments over the full alphabet at top level.
+func VerifFragTop(k int) { verifRunFrags(verifFragText(k, len(verifFrags), 0)) }
+
+// VerifFragCore: k fragments over the reduced alphabet at top level.
+func VerifFragCore(k int) { verifRunFrags(verifFragText(k, verifCoreN, 0)) }
+
+// VerifFragCtx: k fragments over the full alphabet after every context prefix.
+func VerifFragCtx(k int) { verifRunFrags(verifFragText(k, len(verifFrags), len(verifContexts)-1)) }
+
+// VerifFragCtxCore: k fragments over the reduced alphabet after every context prefix.
+func VerifFragCtxCore(k int) { verifRunFrags(verifFragText(k, verifCoreN, len(verifContexts)-1)) }
